@@ -15,6 +15,7 @@ CONSTANTS
   UserParams <- MC_UserParams
   LockNames <- MC_LockNames
   CallerIds <- MC_CallerIds
+  Files <- MC_Files
   WithReload = FALSE
   Lookups = FALSE
   Phased = FALSE
